@@ -183,3 +183,8 @@ package web
 //@   ensures[C15] claimsOnlyIfValid: #encodedJSON ==> #validatedOK && #validatedIssuer == "rdpgw"
 //@   site (*encoding/json.Encoder).Encode requires[C15] verified: #validatedOK && #status == 0 && dyn(arg1, jwt.Claims) == info
 //@   nopanic[C10]
+
+//@ func TransposeSPNEGOContext$1
+//@   requires[C10] wf: next != nil && *next != nil && reqHasId(r)
+//@   assigns *
+//@   nopanic[C10]
